@@ -54,9 +54,9 @@ type world struct {
 
 	mu       sync.Mutex
 	recs     []*opRec
-	recvNext []*big.Int // next payout of the peer's cheque to us
-	sched    []string   // description of the forced schedule
-	setupW   int        // number of store writes made by the setup
+	recvNext []*big.Int          // next payout of the peer's cheque to us
+	sched    []string            // description of the forced schedule
+	setupW   int                 // number of store writes made by the setup
 	scratch  storage.StateStorer // store reused for every restart of this history
 }
 
@@ -665,7 +665,7 @@ func runSet1(t *testing.T, name string, quick, thorough int, f func(*testing.T, 
 			"the store wrapper only delays a Put and logs writes; a store in which an earlier-issued Put completes later is an ordinary concurrent store",
 			"restart point k = base contents + first k writes; an operation counts as acknowledged at point k if its call returned before write k+1 began (logical clock)")
 	} else {
-		run.Rule("free-running: 2-6 goroutines x 3-8 traffic updates over 1-3 peers, one payer goroutine and one cheque-receiving goroutine, seeded yields/microsleeps before store writes; restart at 5 sampled crash points and at quiescence; "+
+		run.Rule("free-running: 2-6 goroutines x 3-8 traffic updates over 1-3 peers, one payer goroutine and one cheque-receiving goroutine, seeded yields/microsleeps before store writes; restart at 5 sampled crash points and at quiescence; " +
 			"distinct = workload sizes x stale overwrites seen x order in which calls returned")
 	}
 	n := run.N(quick, thorough)
